@@ -46,10 +46,42 @@ def monitor_counts():
 
 def plan(tier):
     return [(fam, _PER[tier]) for fam in gen_univ.FAMILIES] + \
-        [(f'mix:{fam}', _PER_MIX[tier]) for fam in gen_mix.FAMILIES]
+        [(f'mix:{fam}', _PER_MIX[tier]) for fam in gen_mix.FAMILIES] + \
+        [('data-card-params', 3)]
+
+
+def build_data_cards(case):
+    '''U and FILL given as data cards (one entry per cell) instead of cell
+    keywords: MCNP accepts every cell parameter in both places.'''
+    import numpy as np
+    from ..decks import WORLD_SURF
+    rng = case.rng
+    deck = M.Deck('C05 data-card-params')
+    deck.world = 12.0
+    rad = round(rng.uniform(3, 5), 3)
+    deck.surfs += [M.Surf(1, 'so', [rad]),
+                   M.Surf(2, rng.choice(['px', 'py', 'pz']),
+                          [round(rng.uniform(-1, 1), 3)]),
+                   M.Surf(WORLD_SURF, 'so', [12.0])]
+    deck.cells += [
+        M.Cell(1, mat=0, geom=M.S(-1), imp={'n': '1'}, fill=M.Fill(universe=4)),
+        M.Cell(2, mat=1, rho='-1.5', geom=M.AND(M.S(1), M.S(-WORLD_SURF)),
+               imp={'n': '1'}),
+        M.Cell(3, mat=0, geom=M.S(WORLD_SURF), imp={'n': '0'}),
+        M.Cell(10, mat=2, rho='-2.5', geom=M.S(-2), imp={'n': '1'}, u=4),
+        M.Cell(11, mat=3, rho='-3.5', geom=M.S(2), imp={'n': '1'}, u=4)]
+    for mid in (1, 2, 3):
+        deck.mats.append(M.Material(mid, [('13027', '1')]))
+    which = rng.choice([('u',), ('u', 'fill'), ('fill',)])
+    deck.params_on_data_cards = which
+    deck.hints = [np.zeros(3)]
+    deck.tags.add('c05.data-card-params:' + '+'.join(which))
+    return deck
 
 
 def build(case):
+    if case.family == 'data-card-params':
+        return build_data_cards(case)
     if case.family.startswith('mix:'):
         return gen_mix.build(case.rng, case.family[4:])
     return gen_univ.build(case.rng, case.family)
@@ -61,10 +93,12 @@ def run(case, ctx):
     deck = build(case)
     out.tags |= deck.tags
     out.structure = gen_mix.structure_of(deck) \
-        if case.family.startswith('mix:') else gen_univ.structure_of(deck)
+        if case.family.startswith(('mix:', 'data-card')) \
+        else gen_univ.structure_of(deck)
     run_ = convert_deck(case, ctx, out, deck)
     if not run_.ok:
-        crash_violation(out, run_)
+        crash_violation(out, run_, mech='cell-parameters-on-data-cards-ignored'
+                        if case.family == 'data-card-params' else None)
         return out
     res = region_agreement(case, ctx, out, deck, run_, n_uniform=2500)
     if res is None:
@@ -82,5 +116,7 @@ def run(case, ctx):
                                            if v.comment})[:4],
                   'probes': int(len(pts))}
     if mism:
-        out.violation('hierarchy', summarise(mism))
+        mech = 'cell-parameters-on-data-cards-ignored' \
+            if case.family == 'data-card-params' else None
+        out.violation('hierarchy', summarise(mism), mech=mech)
     return out
